@@ -223,6 +223,8 @@ def check_grid(case):
 
     with loop_mode(ctx, "hooks"):
         outcome = run(ctx, consume())
+        # (looked at BEFORE the loop's own finalizer gets to close generators nobody holds any more)
+        source_open = case["container"] == "aiter" and container.ag_frame is not None
         close_orphans(ctx)
     expect_return(outcome, f"C19/{case['adapter']}")
     n = min(case["steps"], case["length"])
@@ -237,6 +239,11 @@ def check_grid(case):
                    and inspect.getcoroutinestate(w) != inspect.CORO_CREATED]
         if touched:
             raise Violation(f"C19/{case['adapter']}/touched-awaitables-nobody-asked-for", f"{case}: {touched}")
+    if case["adapter"] == "any_iter" and case["container"] == "aiter" and 1 <= case["steps"] <= case["length"] \
+            and outcome[0] == "return" and source_open:
+        # the consumer closed any_iter before the end: the async iterator it was given - directly or as the result of
+        # an awaitable - is closed with it (C04 for the awaitable forms of the argument, which the tool table lacks)
+        raise Violation("C19/any_iter/source-not-closed-with-the-adapter", f"{case}")
     close_unawaited(wrapped)
     if len(got) != n or any(x is not y for x, y in zip(got, plain)):
         raise Violation(f"C19/{case['adapter']}/items-differ",
@@ -368,7 +375,7 @@ def sync_cases(draw):
     elif flavour == "def-mixed":
         kinds = st.sampled_from(["plain", "coroutine", "object", "raise", "suspending", "futurelike",
                                  "coroutine-raises", "falsy-awaitable", "grumpy-plain", "gencoro", "plain-generator",
-                                 "plain-generator"])
+                                 "plain-generator", "cfuture"])
     else:
         kinds = st.sampled_from(["value", "raise"])
     return {"adapter": "sync", "flavour": flavour, "calls": draw(st.lists(kinds, min_size=1, max_size=4)),
@@ -401,6 +408,11 @@ def check_sync(case):
             return FalsyAw(ctx, values[k])
         if kind == "grumpy-plain":
             values[k] = GrumpyPlain()
+            return values[k]
+        if kind == "cfuture":
+            import concurrent.futures
+
+            values[k] = concurrent.futures.Future()  # a handle of ANOTHER kind of concurrency: not awaitable, plain data
             return values[k]
         if kind == "plain-generator":
             values[k] = (x for x in (k,))  # a generator object is a plain result (only generator-based COROUTINES are awaited)
